@@ -31,6 +31,37 @@ CHECKS = {
             "8-bit dictionary keys are excluded: concat may legitimately fail with a key-overflow error",
         ],
     },
+    "C04": {
+        "crate": "checks",
+        "bin": "c04_ipc",
+        "level": "exploration",
+        "rule": "one run = one generated schema (every arrow type incl. nested / view / run-end / union, schema and field metadata, zero-column schemas) plus 0-2 history-dictionary columns "
+                "(top level, inside a struct, inside a list) whose dictionary the harness evolves batch by batch (same pointer / equal copy / extension / replacement / shrink), 1-4 batches (empty, sliced), "
+                "tape-chosen IpcWriteOptions (alignment, V4/V5, legacy, LZ4/ZSTD, Resend/Delta) and, for Flight, max message size from 1 byte, Hydrate/Resend, schema supplied or not; written by the real "
+                "writer over a sink with short writes / Interrupted, read back by the real reader over a source with short reads / Interrupted (file, stream: with a tape-chosen projection; stream also through "
+                "StreamDecoder under a tape-chosen chunk schedule; Flight: encoder -> prost encode/decode -> decoder on the manual executor with Pending patterns on the input stream and the channel); "
+                "compared with the single-copy log of logical rows; distinct = distinct (path, batches, dictionary history length / message limit)",
+        "required_probes": ["probe.dict.delta_history", "probe.dict.replacement_history", "probe.dict.same_pointer", "probe.dict.equal_copy", "probe.dict.nested_history_column", "probe.empty_batch",
+                            "probe.file.history_refused", "probe.projection", "probe.stream_decoder", "probe.stream_encoder", "probe.flight.batches_split", "probe.flight.pending_seen", "probe.flight.resend", "probe.flight.hydrate"],
+        "components": {
+            "real": ["arrow_ipc::writer::{FileWriter, StreamWriter, StreamEncoder, IpcDataGenerator, DictionaryTracker}", "arrow_ipc::reader::{FileReader, StreamReader, StreamDecoder} (with projection)",
+                     "arrow_flight::encode::{FlightDataEncoderBuilder, FlightDataEncoder}", "arrow_flight::decode::{FlightRecordBatchStream, FlightDataDecoder}", "prost encode / decode of every FlightData message", "lz4 / zstd codecs"],
+            "stub": ["sinks and sources (SimSink / SimSource, benign faults only: short transfers, Interrupted)", "the chunk producer for StreamDecoder", "the Flight input stream and the gRPC hop (ordered, reliable, Pending on a seeded pattern)", "manual executor"],
+            "not_run": ["tonic / hyper transport, FlightClient / FlightService", "hard I/O faults (C18)", "StreamDecoder on schemas with a dense union (known C14 finding: misaligned offsets panic under chunking)"],
+        },
+        "level_text": "seeded exploration of batch histories with per-field dictionary evolution, write options and benign transport schedules through the IPC file / stream writers, the stream encoder and the Flight "
+                      "encoder and back through the matching readers, against a single-copy log of logical rows and a model of which dictionary histories the file format can represent; sampling, not proof",
+        "design_ref": "DESIGN.md section 4 (C04), section 11",
+        "level_note": "the file writer may refuse a history the file format cannot represent (replacement; extension without delta handling) - accepted, and an accepted one must read back correctly; Flight is compared on "
+                      "concatenated rows and on the schema with dictionary encodings removed (Hydrate); message loss / reordering are not injected (gRPC is ordered and reliable); tonic transport is not run; "
+                      "trusted: in-tree simulator and executor, row extraction, ArrayData::validate_full",
+        "technique": "deterministic simulation: seeded batch / dictionary histories through stateful writers and readers, benign-fault transports and Pending schedules owned by the simulator, reference = single-copy log; tape replay + shrinking",
+        "assumptions": TRUSTED + [
+            "dictionary- and run-end-encoded columns are compared by the values they denote",
+            "names, types, nullability and metadata of every (nested) field are compared; dict_id / dict_is_ordered are not",
+            "ArrayData::validate_full is trusted as the validity oracle for returned batches",
+        ],
+    },
     "C14": {
         "crate": "checks",
         "bin": "c14_chunk",
